@@ -1,5 +1,6 @@
 #!/bin/bash
 # tools/mutant.sh verify <diff> <demo.sh>        -> checks in scratch worktrees: applies, builds, 345 tests pass, demo fails on mutant / passes on clean
+# tools/mutant.sh checkw <diff> <Cxx> [Cyy...]   -> the same in a scratch worktree (VERIF_REPO), leaving /repo alone
 # tools/mutant.sh check  <diff> <Cxx> [Cyy...]   -> applies the diff to /repo, runs the quick checks, prints VIOLATION lines, restores /repo
 set -u
 mode=$1; diff=$(readlink -f "$2"); shift 2
@@ -30,5 +31,17 @@ check)
     printf '%s\n' "$out" | grep '^VIOLATION' | head -3 | cut -c1-220
   done
   git -C /repo checkout -- . ; git -C /repo status --porcelain
+  ;;
+checkw)
+  # same as check, but the change is applied in a scratch worktree and the checks are pointed at it with VERIF_REPO (used while /repo is busy)
+  w=/tmp/mw-$$; git -C /repo worktree add --detach $w HEAD >/dev/null 2>&1 || exit 2
+  git -C $w apply "$diff" 2>/dev/null || git -C $w apply -3 "$diff" || { echo "APPLY FAILED"; git -C /repo worktree remove --force $w; exit 2; }
+  for c in "$@"; do
+    t0=$(date +%s)
+    out=$(cd /verif && VERIF_REPO=$w VERIF_EVIDENCE_DIR=/tmp/evid-mut ./check $c 2>&1); rc=$?
+    echo "== $c exit=$rc $(( $(date +%s) - t0 ))s: $(printf '%s\n' "$out" | grep -c '^VIOLATION') violation line(s)"
+    printf '%s\n' "$out" | grep '^VIOLATION' | head -3 | cut -c1-220
+  done
+  git -C /repo worktree remove --force $w; git -C /repo worktree prune
   ;;
 esac
